@@ -40,6 +40,7 @@ func init() {
 		"c13replay":   c13Replay,
 		"c13lookup":   c13Lookup,
 		"c13bind":     c13Bind,
+		"c18replay":   c18Replay,
 	}})
 }
 
